@@ -69,7 +69,9 @@ Definition state_variable (inst : option string) (stem : string) : string := dec
 Definition compartment_var (inst : option string) : string := state_variable inst "compartment".
 Definition occupied_var (inst : option string) : string := state_variable inst "occupied".
 (* the state variables that CompartmentedModel declares as shared between instances *)
-Definition shared_vars : list string := ["tOccupied"; "tHitting"; "hittingProcess"]%string.
+(* ... and the class-level node attribute of the fixed-recovery variants (INFECTION_TIME), which like
+   the three above is a class constant, not a stateVariable() of the instance *)
+Definition shared_vars : list string := ["tOccupied"; "tHitting"; "hittingProcess"; "infection_time"]%string.
 
 (* ------------------------------------------------------------------ parameter lookup *)
 Section Lookup.
@@ -271,7 +273,8 @@ Definition loci_for_process (reg : registry) (owner : nat) : list string :=
 (* ------------------------------------------------------------------ write summaries *)
 (* What the shipped event functions write, as names: a state variable of the instance itself
    (decorated with its instance name) or one of the declared shared ones.  This is a SUMMARY
-   of sir_model.py / sis_model.py (infect, remove, recover) and of
+   of sir_model.py / sis_model.py / sirs_model.py / s??_model_fixed_recovery.py / sivr_model.py (infect,
+   remove, recover, resuscept) and of
    CompartmentedModel.changeCompartment / markOccupied / markHit, not a derivation from the
    Python source; tie B checks it against every event that the implementation fires. *)
 Inductive var := Own (stem : string) | Shared (name : string).
@@ -280,8 +283,9 @@ Definition var_name (inst : option string) (v : var) : string :=
 
 Definition write_summary (fn : string) : list var :=
   if String.eqb fn "infect" then
-    [Own "compartment"; Own "occupied"; Shared "tOccupied"; Shared "tHitting"; Shared "hittingProcess"]%string
-  else if String.eqb fn "remove" || String.eqb fn "recover" then [Own "compartment"%string]
+    [Own "compartment"; Own "occupied"; Shared "tOccupied"; Shared "tHitting"; Shared "hittingProcess";
+     Shared "infection_time"]%string
+  else if String.eqb fn "remove" || String.eqb fn "recover" || String.eqb fn "resuscept" then [Own "compartment"%string]
   else [].                                  (* Monitor.observe, user programs of the kernel model *)
 
 (* a world: node/edge attributes by (attribute name, element) and loci by registered name *)
